@@ -3,7 +3,7 @@
 Require Extraction.
 Require Import ExtrOcamlBasic.
 From Coq Require Import List NArith Strings.String.
-From V Require Import Base.Bytes Base.Res Gen.Tables Model.Escape Spec.EscapeSpec Model.Ast.
+From V Require Import Base.Bytes Base.Res Gen.Tables Model.Escape Spec.EscapeSpec Model.Ast Model.Html Spec.HtmlSpec Gen.Scanners.
 Extraction Language OCaml.
 Set Extraction KeepSingleton.
 
@@ -26,4 +26,16 @@ Extraction "model.ml"
   Ast.node_size
   Ast.mkOpts
   Ast.kind_of
+  Html.html
+  Html.events
+  Html.ser
+  HtmlSpec.html_safe_check
+  HtmlSpec.html_balanced_check
+  HtmlSpec.strip_sourcepos
+  HtmlSpec.relex_identity
+  HtmlSpec.dangerous_spec
+  HtmlSpec.well_nested
+  HtmlSpec.safe_ev
+  HtmlSpec.s7
+  Scanners.dangerous_url
 .
